@@ -15,8 +15,10 @@ def results(out):
 
 def main():
     pid, name, wt, checks, needs = sys.argv[1:6]
+    demo_cmd = sys.argv[6] if len(sys.argv) > 6 else "cargo test -p ruzstd --test seeded_demo --offline"
+    demo_rel = sys.argv[7] if len(sys.argv) > 7 else "ruzstd/tests/seeded_demo.rs"
     env = dict(os.environ, CARGO_TARGET_DIR=os.path.join(wt, "target"), CARGO_NET_OFFLINE="true")
-    demo = os.path.join(wt, "ruzstd/tests/seeded_demo.rs")
+    demo = os.path.join(wt, demo_rel)
     patch = os.path.join(wt, "patch.diff")
     assert os.path.exists(demo) and os.path.exists(patch), "demo or patch missing"
     ran = []
@@ -28,15 +30,15 @@ def main():
     suite = results(out)
     suite_green = bool(suite) and all(" 0 failed" in l for l in suite) and rc == 0
     ran.append({"cmd": "cargo test --workspace --no-fail-fast --offline  (with the change, demo set aside)", "result": suite})
-    rc, out = sh("cargo test -p ruzstd --test seeded_demo --offline 2>&1", cwd=wt, env=env)
+    rc, out = sh(demo_cmd + " 2>&1", cwd=wt, env=env)
     with_change = results(out)
     demo_fails = rc != 0 and any("FAILED" in l for l in with_change)
-    ran.append({"cmd": "cargo test -p ruzstd --test seeded_demo --offline  (with the change)", "result": with_change})
+    ran.append({"cmd": demo_cmd + "  (with the change)", "result": with_change})
     sh("git checkout -- ruzstd/src cli/src", cwd=wt)
-    rc, out = sh("cargo test -p ruzstd --test seeded_demo --offline 2>&1", cwd=wt, env=env)
+    rc, out = sh(demo_cmd + " 2>&1", cwd=wt, env=env)
     without = results(out)
     demo_passes = rc == 0 and bool(without) and all(" 0 failed" in l for l in without)
-    ran.append({"cmd": "cargo test -p ruzstd --test seeded_demo --offline  (without the change)", "result": without})
+    ran.append({"cmd": demo_cmd + "  (without the change)", "result": without})
     sh("git apply --whitespace=nowarn patch.diff", cwd=wt)
     confirmed = suite_green and demo_fails and demo_passes
     print(f"confirmed={confirmed} suite_green={suite_green} demo_fails_with={demo_fails} demo_passes_without={demo_passes}")
